@@ -6,12 +6,15 @@
    productions), /repo/omega/logic/bitvector.py (opmap) and /repo/doc/doc.md
    (precedence list, BNF tokens).  C16_Inst.PT is the operator table
    `mk_ptable code_prec productions`. *)
-From Coq Require Import List String NArith Bool.
+From Coq Require Import List String Ascii NArith Bool.
 Import ListNotations.
 From Omega Require Import L6Syntax.Tokens L6Syntax.Lexer L6Syntax.Parser
   L6Syntax.Flatten L6Syntax.Gr1Split L6Syntax.Frontend L6Syntax.TableChecks
-  L6Syntax.PrecSpec L6Syntax.Gr1Spec
-  L6Syntax.TableChecksProofs L6Syntax.ParserProofs L6Syntax.Gr1SplitProofs.
+  L6Syntax.PrecSpec L6Syntax.Gr1Spec L6Syntax.LexSpec L6Syntax.RoundtripSpec
+  L6Syntax.AgreeSpec
+  L6Syntax.TableChecksProofs L6Syntax.ParserProofs L6Syntax.Gr1SplitProofs
+  L6Syntax.LexerProofs L6Syntax.RoundtripProofs L6Syntax.AgreeProofs
+  L6Syntax.SpellProofs.
 From OmegaGen Require Import C16_Tables C16_Inst.
 Local Open Scope string_scope.
 
@@ -79,8 +82,10 @@ Theorem C16_prefix_levels_disjoint_bounded :
 Proof. vm_compute. reflexivity. Qed.
 
 (* ------------------------------------------------------------------ *)
-(* prec_determines_tree (binary / prefix / postfix core with parentheses,
-   terminals, ranges and ite(,,)): for EVERY surface tree s whose operators
+(* prec_determines_tree (infix / prefix / postfix operators, parentheses,
+   terminals, ranges, ite(,,), IF/THEN/ELSE and quantifiers \A \E whose
+   bodies extend as far as the precedence of their rule - IF_THEN_ELSE, `:` -
+   allows): for EVERY surface tree s whose operators
    are operators of the table (wf) and which groups them as the table
    demands (respects), the parser applied to the token sequence of s
    returns exactly the tree s denotes.  Unbounded: by induction on s. *)
@@ -122,6 +127,29 @@ Proof.
   split; [exact W | split; [exact R | split; [reflexivity|]]].
   rewrite (C16_prec_determines_tree ex_s W R). reflexivity.
 Qed.
+(* non-vacuity with the special forms: the quantifier body and the ELSE
+   branch extend to the right as far as possible *)
+Definition ex_q : stree :=
+  SQuant (Tok "FORALL" "\A") [("x", None); ("y", Some (Tok "PRIME" "'"))]
+    (SBin (Tok "IMPLIES" "=>")
+       (SBin (Tok "AND" "/\") (SAtom (AVar "a")) (SAtom (AVar "b")))
+       (SIf (SAtom (AVar "p")) (SAtom (AVar "q"))
+            (SBin (Tok "PLUS" "+") (SAtom (AVar "r")) (SAtom (ANum (NPos "1")))))).
+Example C16_prec_determines_tree_forms_ex :
+  wf PT ex_q /\ respects PT ex_q /\
+  parse PT (yield ex_q)
+  = Some (Opr "\A" [Opr "params" [Term KVar "x"; Un "X" (Term KVar "y")];
+            Bin CBinary "=>" (Bin CBinary "/\" (Term KVar "a") (Term KVar "b"))
+              (Opr "ite" [Term KVar "p"; Term KVar "q";
+                          Bin CArithmetic "+" (Term KVar "r") (Term KNum "1")])]).
+Proof.
+  assert (W : wf PT ex_q).
+  { vm_compute. repeat split; try discriminate; try (left; reflexivity).
+    repeat constructor; discriminate. }
+  assert (R : respects PT ex_q) by (vm_compute; repeat split).
+  split; [exact W | split; [exact R|]].
+  rewrite (C16_prec_determines_tree ex_q W R). reflexivity.
+Qed.
 (* the other grouping does not respect the table *)
 Example C16_wrong_grouping_rejected :
   ~ respects PT (SPre (Tok "ALWAYS" "[]")
@@ -129,6 +157,46 @@ Example C16_wrong_grouping_rejected :
          (SBin (Tok "UNTIL" "U") (SAtom (AVar "a")) (SAtom (AVar "b")))
          (SAtom (AVar "c")))).
 Proof. vm_compute. intros [_ [H _]]. discriminate. Qed.
+
+(* ------------------------------------------------------------------ *)
+(* The DOCUMENTED table determines the tree.  PTdoc is the operator table
+   built from the precedence list of doc/doc.md (each documented spelling
+   replaced by the token type the lexer gives it) instead of the parser's
+   tuple; doc_op_types are the types of the infix / prefix / postfix
+   operators of the documented BNF. *)
+Definition doc_prec_by_type : list (assoc * list string) := rekey dtt doc_prec.
+Definition PTdoc : ptable := mk_ptable doc_prec_by_type productions.
+Definition doc_op_types : list string :=
+  flat_map (fun d => match dtt d with Some ty => [ty] | None => [] end)
+           (doc_binary ++ doc_prefix ++ doc_postfix)%list.
+
+(* for every pair of documented operators (and the rule of `:`), the
+   parser's tuple and the documented list make the same shift/reduce
+   decision; same kinds, classes and associativities *)
+Theorem C16_doc_tables_agree_bounded :
+  tables_agree PT PTdoc doc_op_types ["COLON"] = true.
+Proof. vm_compute. reflexivity. Qed.
+
+(* for EVERY surface tree s over the documented operators (and quantifiers)
+   that groups them as the DOCUMENTED precedence/associativity list demands,
+   the parser applied to the token sequence of s returns the tree s denotes *)
+Theorem C16_doc_table_determines_tree : forall s : stree,
+  ops_in doc_op_types ["COLON"] s -> wf PT s -> respects PTdoc s ->
+  parse PT (yield s) = Some (erase PTdoc s).
+Proof.
+  exact (agree_determines_tree PT PTdoc doc_op_types ["COLON"]
+           C16_doc_tables_agree_bounded C16_table_ok_bounded).
+Qed.
+
+Example C16_doc_table_determines_tree_ex :
+  ops_in doc_op_types ["COLON"] ex_s /\ wf PT ex_s /\ respects PTdoc ex_s /\
+  erase PTdoc ex_s
+  = Bin CBinary "/\" (Un "[]" (Bin CBinary "U" (Term KVar "a") (Term KVar "b")))
+      (Term KVar "c").
+Proof.
+  split; [vm_compute; tauto|]. split; [vm_compute; repeat split; discriminate|].
+  split; [vm_compute; repeat split | reflexivity].
+Qed.
 
 (* ------------------------------------------------------------------ *)
 (* roundtrip: for EVERY tree of the flatten-able fragment (terminals, unary,
@@ -156,6 +224,96 @@ Proof.
 Qed.
 
 (* ------------------------------------------------------------------ *)
+(* The lexer: blanks, line breaks and comments do not matter. *)
+Local Notation RenderedG := (Rendered lex_rules lex_reserved lex_values lex_ignore).
+
+(* side conditions of the lexer theorems, for the generated rule table:
+   identifiers are PLY's first rule; the number, newline and both comment
+   rules are reached (no earlier rule can take their input) and emit /
+   discard; blank is ignored, newline, backslash and "(" are not *)
+Theorem C16_lexer_table_ok_bounded :
+  lex_table_ok lex_rules = true /\ ignore_ok lex_ignore = true
+  /\ is_ignored lex_ignore " "%char = true.
+Proof. vm_compute. repeat split. Qed.
+
+(* lex_rendered: a string that is a sequence of lexemes (each one delivered
+   as its token when followed by the next character, as decided from the
+   rule table by `lexeme_tok`) with ARBITRARY separators between them -
+   blanks, line breaks, one-line comments, multi-line comments, in any
+   number and order - lexes to exactly the tokens of the lexemes.
+   Unbounded: by induction on the rendering. *)
+Theorem C16_lex_rendered : forall s ts, RenderedG s ts -> LEX s = Some ts.
+Proof.
+  exact (lex_rendered lex_rules lex_reserved lex_values lex_ignore
+           (proj1 C16_lexer_table_ok_bounded)
+           (proj1 (proj2 C16_lexer_table_ok_bounded))).
+Qed.
+
+(* comments_ws: two renderings of the same token sequence parse alike *)
+Theorem C16_comments_ws : forall s1 s2 ts,
+  RenderedG s1 ts -> RenderedG s2 ts -> PS s1 = PS s2.
+Proof.
+  exact (comments_ws_parse lex_rules lex_reserved lex_values lex_ignore PT
+           (proj1 C16_lexer_table_ok_bounded)
+           (proj1 (proj2 C16_lexer_table_ok_bounded))).
+Qed.
+
+Definition nl : string := String "010"%char "".
+Definition ex_toks := [Tok "NAME" "a"; Tok "AND" "/\"; Tok "NAME" "b"].
+Example C16_comments_ws_ex :
+  RenderedG ("a" ++ " " ++ "&&" ++ " " ++ "b" ++ "") ex_toks /\
+  RenderedG ("a" ++ (" " ++ "(*" ++ " x " ++ "*)" ++ nl) ++ "/\"
+             ++ (" " ++ "\*" ++ " y" ++ nl) ++ "b" ++ "") ex_toks /\
+  PS "a && b" = Some (Bin CBinary "/\" (Term KVar "a") (Term KVar "b")).
+Proof.
+  assert (B : sep lex_ignore " ") by (apply sep_blank; [reflexivity | constructor]).
+  split; [|split].
+  - apply R_tok; [vm_compute; reflexivity|].
+    apply R_sep; [discriminate | exact B |].
+    apply R_tok; [vm_compute; reflexivity|].
+    apply R_sep; [discriminate | exact B |].
+    apply R_tok; [vm_compute; reflexivity | constructor].
+  - apply R_tok; [vm_compute; reflexivity|].
+    apply R_sep; [discriminate | |].
+    { apply sep_blank; [reflexivity|].
+      apply (sep_ml lex_ignore " x " nl); [apply closes_nostar; reflexivity|].
+      apply sep_newline; [reflexivity | constructor]. }
+    apply R_tok; [vm_compute; reflexivity|].
+    apply R_sep; [discriminate | |].
+    { apply sep_blank; [reflexivity|].
+      apply (sep_line lex_ignore " y" "010"%char ""); [reflexivity | reflexivity | constructor]. }
+    apply R_tok; [vm_compute; reflexivity | constructor].
+  - vm_compute. reflexivity.
+Qed.
+
+(* roundtrip at string level: Parser().parse(tree.flatten()) = tree, for
+   every tree of the flatten-able fragment whose lexemes are lexically
+   valid (sflat: decided from the rule table) *)
+Theorem C16_roundtrip_string : forall t : tree,
+  flat_ok PT OPTOK t ->
+  sflat lex_rules lex_reserved lex_values lex_ignore OPTOK t None ->
+  PS (flatten_str t) = Some t.
+Proof.
+  exact (roundtrip_string lex_rules lex_reserved lex_values lex_ignore OPTOK
+           (proj2 (proj2 C16_lexer_table_ok_bounded)) PT C16_table_ok_bounded
+           (proj1 C16_lexer_table_ok_bounded)
+           (proj1 (proj2 C16_lexer_table_ok_bounded))).
+Qed.
+
+Example C16_roundtrip_string_ex :
+  sflat lex_rules lex_reserved lex_values lex_ignore OPTOK ex_t None /\
+  flatten_str ex_t
+  = "( ( ~ ( x <= -3 ) ) => ite(TRUE, ( X y ), ( z + ""s"" )) )" /\
+  PS (flatten_str ex_t) = Some ex_t.
+Proof.
+  assert (S : sflat lex_rules lex_reserved lex_values lex_ignore OPTOK ex_t None)
+    by (vm_compute; repeat split).
+  split; [exact S | split; [reflexivity|]].
+  apply C16_roundtrip_string; [|exact S].
+  vm_compute; repeat split; (discriminate || (left; reflexivity) || idtac).
+Qed.
+
+(* ------------------------------------------------------------------ *)
 (* spellings (operator core): token sequences that are yields of surface
    trees of the same shape whose tokens agree in type and in spelling class
    `cls` parse to trees equal up to the class of every operator name.
@@ -168,17 +326,45 @@ Theorem C16_spellings_partial : forall (cls : string -> string) (s1 s2 : stree),
   strip cls (erase PT s1) = strip cls (erase PT s2).
 Proof. exact (fun cls => spellings_core PT cls C16_table_ok_bounded). Qed.
 
-(* the full statement: for ALL token sequences (including the special forms
-   IF/THEN/ELSE, LET, quantifiers), not only yields of the operator core.
-   Not proved; tie H compares spellings on the real parser. *)
-Definition tok_sim (cls : string -> string) (a b : token) : Prop :=
-  tty a = tty b /\
-  (if mem_str (tty a) ["NAME"; "NUMBER"] then tval a = tval b
-   else cls (tval a) = cls (tval b)).
-Definition C16_spellings_full : Prop :=
-  forall (cls : string -> string) (ts1 ts2 : list token),
-    Forall2 (tok_sim cls) ts1 ts2 ->
+(* spellings, ALL token sequences (special forms, LET, module level
+   included): the parser inspects token types only, so two token sequences
+   that agree in types, in the values of identifiers and numbers, and in the
+   class `cls` of every other value parse to trees that are equal up to the
+   class of operator names and Boolean constants - and one is rejected iff
+   the other is.  `cls` is any idempotent choice of representative.
+   Unbounded: by induction on the fuel of the parser, through every branch. *)
+Theorem C16_spellings : forall cls : string -> string,
+  (forall v, cls (cls v) = cls v) ->
+  forall ts1 ts2 : list token,
+    Forall2 (SpellProofs.tok_sim cls) ts1 ts2 ->
     option_map (strip cls) (parse PT ts1) = option_map (strip cls) (parse PT ts2).
+Proof. exact (fun cls H => spellings_full PT cls H). Qed.
+
+(* the synonym classes the lexer does not normalise *)
+Definition syn_cls (v : string) : string :=
+  if String.eqb v "#" then "!=" else if String.eqb v "/=" then "!="
+  else if String.eqb v "=<" then "<=" else v.
+Example C16_spellings_ex :
+  (forall v, syn_cls (syn_cls v) = syn_cls v) /\
+  Forall2 (SpellProofs.tok_sim syn_cls)
+    [Tok "NAME" "a"; Tok "NEQUALS" "#"; Tok "NAME" "b"; Tok "LE" "=<"; Tok "NUMBER" "1"]
+    [Tok "NAME" "a"; Tok "NEQUALS" "!="; Tok "NAME" "b"; Tok "LE" "<="; Tok "NUMBER" "1"] /\
+  option_map (strip syn_cls) (parse PT
+    [Tok "NAME" "a"; Tok "NEQUALS" "#"; Tok "NAME" "b"; Tok "LE" "=<"; Tok "NUMBER" "1"])
+  = Some (Bin CComparator "!=" (Term KVar "a")
+            (Bin CComparator "<=" (Term KVar "b") (Term KNum "1"))).
+Proof.
+  split; [|split].
+  - intros v. unfold syn_cls.
+    destruct (String.eqb_spec v "#"); [reflexivity|].
+    destruct (String.eqb_spec v "/="); [reflexivity|].
+    destruct (String.eqb_spec v "=<"); [reflexivity|].
+    destruct (String.eqb_spec v "#"); [contradiction|].
+    destruct (String.eqb_spec v "/="); [contradiction|].
+    destruct (String.eqb_spec v "=<"); [contradiction|]. reflexivity.
+  - repeat constructor.
+  - vm_compute. reflexivity.
+Qed.
 
 (* ------------------------------------------------------------------ *)
 (* split_gr1_spec: on a conjunction, in any nesting of /\, of initial
@@ -236,8 +422,13 @@ Print Assumptions C16_spellings_normalised_bounded.
 Print Assumptions C16_synonyms_same_opmap_bounded.
 Print Assumptions C16_prec_determines_tree.
 Print Assumptions C16_respecting_tree_unique.
+Print Assumptions C16_doc_table_determines_tree.
 Print Assumptions C16_roundtrip.
 Print Assumptions C16_spellings_partial.
+Print Assumptions C16_spellings.
+Print Assumptions C16_lex_rendered.
+Print Assumptions C16_comments_ws.
+Print Assumptions C16_roundtrip_string.
 Print Assumptions C16_split_gr1_spec.
 Print Assumptions C16_split_gr1_lists.
 Print Assumptions C16_split_gr1_rejects_outside.
